@@ -92,6 +92,7 @@ func NewLimiterMiddleware(hdrName string, reqLimiter *IPRequestLimiter) func(nex
 func (il *IPRequestLimiter) Inc(now time.Time, ip string) (nr, maxNr int, ok bool) {
 	il.mux.Lock()
 	defer il.mux.Unlock()
+	defer verifTrace("inc", il, now, ip, &nr, &maxNr, &ok)
 	if now.Sub(il.ResetTime) > il.Interval {
 		if il.logFile != "" {
 			il.dump()
@@ -125,6 +126,7 @@ func (il *IPRequestLimiter) Count(ip string) int {
 
 // EndTime returns next reset time.
 func (il *IPRequestLimiter) EndTime() time.Time {
+	verifGate("endtime")
 	return il.ResetTime.Add(il.Interval)
 }
 
